@@ -30,7 +30,7 @@ def main():
             "engine": "lmmverif",
             "level_claimed": {
                 "category": "exploration",
-                "text": mod.LEVEL_TEXT,
+                "text": mod.LEVEL_TEXT.replace("{Q}", f"{mod.CASES['quick']:,}").replace("{T}", f"{mod.CASES['thorough']:,}"),
                 "design_ref": f"DESIGN.md section 4 ({pid}), sections 3 and 5",
             },
             "level_note": mod.LEVEL_NOTE,
